@@ -533,3 +533,7 @@ seeded('C02', 'cancel sifts only one way', 'R1.1',
        [('eventlist', EL_REMOVE, "            pos = self._event_list.index((event.time, -event.priority,\n                                     event._id, event))\n            last = self._event_list.pop()\n            if pos < len(self._event_list):\n                self._event_list[pos] = last\n                heapq._siftup(self._event_list, pos)\n")])
 seeded('C07', 'event id counter restarted per replication', 'R1.4',
        [('simevent', "    def __cmp__(self, other: SimEventInterface) -> int:", "    @classmethod\n    def reset_event_counter(cls):\n        cls.__event_counter = 0\n\n    def __cmp__(self, other: SimEventInterface) -> int:")])
+seeded('C04', 'warm-up-before-start guard dropped from initialize', 'R4.1',
+       [('simulator', "        if not replication.warmup_sim_time >= replication.start_sim_time:\n            raise DSOLError(f\"replication {replication} has its warmup time before its start time\")\n", "")], key='schedule_event_abs')
+benign('C04', 'warm-up guard written as `<`-free comparison on the other side',
+       [('simulator', "        if not replication.warmup_sim_time >= replication.start_sim_time:", "        if not (replication.warmup_sim_time >= replication.start_sim_time):")])
